@@ -630,7 +630,11 @@ class World:
                 self.havoc(it, fr, nm, spec)
         if _has_yield(node) and it.out is not None:
             it.out.seq = TSeq(it.out.seq.elem).fresh('out', path.pc)
-            path.solver.add(it.out.seq.length >= 0)
+            path.assume(it.out.seq.length >= 0)
+            if 'pulls' in it.ghost_vars:
+                pl = it.ghost_vars['pulls']
+                pl.seq = TSeq(TInt).fresh('pulls')
+                path.assume(pl.seq.length == it.out.seq.length)
         if it.calls_ghost is not None and _may_call(node):
             it.calls_ghost.havoc(path)
         ghost = Frame(parent=fr)
@@ -816,6 +820,23 @@ class World:
             if isinstance(src, (SSeq, MList)):
                 q = src.seq if isinstance(src, MList) else src
                 it.out.seq = S.seq_concat(it.out.seq, q)
+                return
+            if isinstance(src, S.SIter):
+                # delegating to a one-shot iterator: each element is yielded
+                # right after it is pulled
+                rest = src.remaining()
+                base = src.pos
+                n0 = it.out.seq.length
+                it.out.seq = S.seq_concat(it.out.seq, rest)
+                src.pos = src.seq.length
+                if 'pulls' in it.ghost_vars and it.ghost_vars.get(
+                        'SRC') is src:
+                    pl = it.ghost_vars['pulls']
+                    k = z3.Int(S.fresh_name('k'))
+                    arr = z3.Lambda([k], z3.If(
+                        k < n0, pl.seq.at(k), base + (k - n0) + 1))
+                    pl.seq = SSeq(z3.simplify(n0 + rest.length), arr, TInt,
+                                  kind='list')
                 return
             raise Unsupported('yield from %r' % (src,))
         v = it.eval(ynode.value, fr) if ynode.value is not None else None
